@@ -287,6 +287,27 @@ def current_pins(src: Path) -> dict:
     return out
 
 
+def direct_transitions(src: Path) -> list:
+    """call sites that change the state of a transfer without going through a state method: `x.transition(...)` outside
+    transfer/state.py, and assignments to a `.state` attribute of a transfer outside Transfer itself / read_cache"""
+    found = []
+    for f in sorted((src / 'aioslsk').rglob('*.py')):
+        rel = str(f.relative_to(src))
+        if rel == 'aioslsk/transfer/state.py':
+            continue
+        tree = ast.parse(f.read_text())
+        for n in ast.walk(tree):
+            if isinstance(n, ast.Call) and isinstance(n.func, ast.Attribute) and n.func.attr == 'transition':
+                found.append(f'{rel}:{n.lineno}: {ast.unparse(n)[:80]}')
+            if isinstance(n, (ast.Assign, ast.AnnAssign)):
+                tgts = n.targets if isinstance(n, ast.Assign) else [n.target]
+                for t in tgts:
+                    if isinstance(t, ast.Attribute) and t.attr == 'state' and 'TransferState' in ast.unparse(n.value or ast.Constant(None)):
+                        if not (isinstance(t.value, ast.Name) and t.value.id == 'self' and rel == 'aioslsk/transfer/model.py'):
+                            found.append(f'{rel}:{n.lineno}: {ast.unparse(n)[:80]}')
+    return found
+
+
 def translate(src: Path) -> dict:
     model = ast.parse((src / 'aioslsk/transfer/model.py').read_text())
     manager = ast.parse((src / 'aioslsk/transfer/manager.py').read_text())
@@ -329,6 +350,12 @@ def translate(src: Path) -> dict:
     if 'REQUESTED' not in areason or not isinstance(areason['REQUESTED'], str):
         raise Refuse('AbortReason.REQUESTED')
 
+    # ---- the state of a transfer is only changed by the state classes (and by read_cache's repair, modelled in C17)
+    direct = direct_transitions(src)
+    if direct != [d for d in direct if d.startswith('aioslsk/transfer/manager.py:') and 'transfer.state = TransferState.init_from_state(state, transfer)' in d] \
+            or len(direct) != 1:
+        raise Refuse('state of a transfer changed outside the state classes: ' + '; '.join(direct))
+
     rc = read_cache(M)
     mops = {n: manager_op(M, n) for n in ('abort', 'queue', 'pause')}
 
@@ -366,6 +393,7 @@ def translate(src: Path) -> dict:
     out.append(f'Definition dir_value (d : direction) : nat := match d with Upload => {tdir["UPLOAD"]} | Download => {tdir["DOWNLOAD"]} end.\n')
     out.append(f'Definition abort_reason_requested : string := "{areason["REQUESTED"]}".\n')
     out.append('Definition abort_reasons : list string := ' + strs(v for v in areason.values()) + '.\n')
+    out.append('(* no call of Transfer.transition and no assignment of a transfer state outside transfer/state.py, except the repair in\n   read_cache (checked over the whole package) *)\nDefinition transitions_only_in_state_classes : bool := true.\n')
     out.append('(* Transfer.transition notifies the listeners itself, i.e. while the caller holds the state lock (fingerprinted) *)\n')
     out.append('Definition notify_inside_lock : bool := true.\n')
     return {'TransferGen.v': ''.join(out)}
